@@ -96,7 +96,7 @@ pub fn run(ctx: &mut Ctx) -> bool {
             blackbox::run_c10_blackbox(ctx);
         }
         "C11" => {
-            ctx.rule = "Cases are positions built by a near-mate constructor (cornered king, 1-3 heavy attackers or a seventh-rank pawn, defender's men as self-blocks), variants moving the mating piece back along its own move or replacing a mating N/R/B on the last rank by a pawn about to promote (mates deliverable only by under-promotion), positions one or two plies before those, endgame / game walks, and the exhaustive mini-family of king + minor piece v king + minor piece positions (defending king in a corner region) that contain a mate in one. The oracle's solver classifies each (mate in 1, mate in 1 only by under-promotion/castling/en passant, avoidable mate-in-1 threat, unavoidable, stalemate available, none). Under the virtual clock: (i) mate in 1 exists => every move handed back from the first depth-2 line on mates (timeline of the reference run, confirmed by real re-runs); (ii) avoidable threat => from the first depth-3 line on the move played does not allow mate in 1; (iii) `mate N` with N>0 on any line => the solver finds a forced mate in <= N; N<0 on the last line of a completed depth => the side to move is mated within |N|; mate 0 never; |N|>3 or solver budget exceeded = unjudged. Non-trivial = class is not `none`; distinct by position.".into();
+            ctx.rule = "Cases are positions built by a near-mate constructor (cornered king, 1-3 heavy attackers or a seventh-rank pawn, defender's men as self-blocks), variants moving the mating piece back along its own move or replacing a mating N/R/B on the last rank by a pawn about to promote (mates deliverable only by under-promotion), positions one or two plies before those, endgame / game walks, and the exhaustive mini-family of king + minor piece v king + minor piece positions (defending king in a corner region) that contain a mate in one, and a directed family found by filtering a deterministic candidate stream with the oracle: a mate in one beside another checking move after which every reply gives check back and is answered by mate (a longer mate that check extensions prove already in iteration 1). Half of the cases are set up from FENs with a half-move clock of up to 99 and large move numbers. The oracle's solver classifies each (mate in 1, mate in 1 only by under-promotion/castling/en passant, avoidable mate-in-1 threat, unavoidable, stalemate available, none). Under the virtual clock: (i) mate in 1 exists => every move handed back from the first depth-2 line on mates (timeline of the reference run, confirmed by real re-runs), and a search that ends of its own accord before the clock expires must have played a mating move (it was allowed every iteration it wanted; likewise for (ii)); (ii) avoidable threat => from the first depth-3 line on the move played does not allow mate in 1; (iii) `mate N` with N>0 on any line => the solver finds a forced mate in <= N; N<0 on the last line of a completed depth => the side to move is mated within |N|; mate 0 never; |N|>3 or solver budget exceeded = unjudged. Non-trivial = class is not `none`; distinct by position.".into();
             ctx.assumptions = vec!["mate solver: bounded AND/OR search over the oracle's legal moves (self-tested)".into()];
             searchsem::run_c11(ctx);
         }
